@@ -230,7 +230,7 @@ func init() {
 		return ops
 	}
 	Register(&Prop{
-		ID: "C13",
+		ID:   "C13",
 		Rule: fmt.Sprintf("model: a slice of pool indices with set semantics; pool of %d items with pairwise distinct ids (IRI, object, actor, activity, value and pointer forms); exhaustive layer: all %d histories of length <= %d over {Append, Remove} x pool, each run on a rotating collection kind x start state (empty, pre-filled, slice with spare capacity); after EVERY step Collection() (sequence by id), Count() and Contains(p) for every pool member are compared with the model; random layer: histories of length 6-40 on every kind; distinct = (kind, start, history); non-trivial = history with at least one effective Remove or a repeated Append", poolN, total, L),
 		Layers: func(tier string) []Layer {
 			return []Layer{
